@@ -143,6 +143,36 @@ func (t *thr) park() {
 var threads sync.Map // gid -> *thr
 
 func controller(site string, gid int64, args []int64) {
+	if sv, ok := sthreads.Load(gid); ok {
+		st := sv.(*sthr)
+		switch site {
+		case "summon.body":
+			// the thread owns the summoning section (slot lock released): park it there once
+			if !st.bodySeen && !st.c.cleanup.Load() {
+				st.bodySeen = true
+				st.log("owns the summoning section (parked at summon.body)")
+				st.park()
+			}
+		case "summon.wait":
+			st.slotWait.Store(true)
+			st.log("queued: about to sleep in cond.Wait behind the owner")
+		case "summon.woke":
+			st.slotWait.Store(false)
+		case "summon.waitclose":
+			st.closeWait.Store(true)
+			if st.nclose++; st.nclose <= 2 {
+				st.log("owner found the instance closing: waits in WaitForGracefulClose")
+			}
+		case "summon.closed":
+			st.closeWait.Store(false)
+			if st.nclose <= 2 {
+				st.log("owner: WaitForGracefulClose returned")
+			}
+		case "summon.ctxleave":
+			st.log("left the queue: context done")
+		}
+		return
+	}
 	v, ok := threads.Load(gid)
 	if !ok {
 		return
@@ -169,10 +199,16 @@ func (f *frun) quiesce() {
 		if spins > 1000 && time.Since(t0) > 10*time.Second {
 			return // safety net: never spin forever (the case then shows up as mismatch or hang)
 		}
+		// the done flags must be read BEFORE the snapshot: a thread that finishes between the
+		// snapshot and the flag read may have woken others after the snapshot was taken
+		wasDone := make([]bool, len(f.thrs))
+		for i, t := range f.thrs {
+			wasDone[i] = t.done.Load()
+		}
 		st := gstates()
 		busy := false
-		for _, t := range f.thrs {
-			if t.done.Load() {
+		for i, t := range f.thrs {
+			if wasDone[i] {
 				continue
 			}
 			s, ok := st[t.gid]
@@ -497,6 +533,261 @@ func destroyProbe(srv *rig.Server, i int, kinds []bool, foreign bool) (final int
 	return swamp.VigilCount(obj), false, waited
 }
 
+// ---- hydra.SummonSwamp: the wait in the per-name summon slot queue ---------------------------
+
+type sthr struct {
+	c         *scase
+	idx       int
+	gid       int64
+	resume    chan struct{}
+	parked    atomic.Bool
+	done      atomic.Bool
+	bodySeen  bool
+	nclose    int
+	slotWait  atomic.Bool // between the hooks summon.wait and summon.woke: in the slot's cond.Wait
+	closeWait atomic.Bool // between summon.waitclose and summon.closed: in WaitForGracefulClose
+	ctx       context.Context
+	cancel    context.CancelFunc
+	started   bool
+}
+
+type scase struct {
+	cleanup     atomic.Bool // no more parking
+	destroyHeld atomic.Bool // a Destroy is in flight and held back by the harness: waiting for it is a resting state
+	mu          sync.Mutex
+	human       []string
+	thrs        []*sthr
+}
+
+var sthreads sync.Map // gid -> *sthr
+
+func (t *sthr) log(s string) {
+	t.c.mu.Lock()
+	t.c.human = append(t.c.human, fmt.Sprintf("s%d %s", t.idx, s))
+	t.c.mu.Unlock()
+}
+func (c *scase) note(s string) { c.mu.Lock(); c.human = append(c.human, s); c.mu.Unlock() }
+
+func (t *sthr) park() {
+	t.parked.Store(true)
+	<-t.resume
+}
+
+// squiesce: every summoner has returned, is parked at summon.body, sleeps in cond.Wait or blocks
+// on a mutex. Bounded: file IO inside createNewSwamp is transient.
+func (c *scase) squiesce() {
+	t0 := time.Now()
+	for spins := 0; time.Since(t0) < 10*time.Second; spins++ {
+		wasDone := make([]bool, len(c.thrs))
+		for i, t := range c.thrs {
+			wasDone[i] = t.done.Load() // before the snapshot (see frun.quiesce)
+		}
+		st := gstates()
+		busy := false
+		for i, t := range c.thrs {
+			if !t.started || wasDone[i] {
+				continue
+			}
+			// only two resting places: parked by the harness at summon.body, or asleep in the slot
+			// queue. A summoner blocked on a mutex is transient here (the slot lock is never held
+			// across a park, and the engine's own locks are held by goroutines outside the case).
+			s, ok := st[t.gid]
+			if !ok || !((s == "chan receive" && t.parked.Load()) || (s == "sync.Cond.Wait" && t.slotWait.Load()) || (s == "select" && t.closeWait.Load() && c.destroyHeld.Load())) {
+				busy = true
+				break
+			}
+		}
+		if !busy {
+			return
+		}
+		if spins < 50 {
+			runtime.Gosched()
+		} else {
+			time.Sleep(50 * time.Microsecond)
+		}
+	}
+}
+
+var summonHangs atomic.Int64
+
+// summonCase: n requests summon the same swamp name. s0 is started first and parked inside the
+// summoning section; the others queue up behind it one by one (so the notify-list order is the
+// start order); contexts of queued (and sometimes of not yet started, or of owning) requests are
+// cancelled; then whoever owns the section is released, again and again. Once nobody owns the
+// section and nothing is parked, every request must have returned: a request still asleep in
+// the slot queue is blocked although the summon it waited for has finished.
+func summonCase(srv *rig.Server, idx int, r *common.Rng, second, destroying bool) (n, ncancel int, hung []int, human []string) {
+	nm := fmt.Sprintf("c17/q/s%d", idx)
+	h := srv.Zeus.GetHydra()
+	n = 3 + r.Intn(4)
+	c := &scase{}
+	for i := 0; i < n; i++ {
+		ctx, cancel := context.WithCancel(context.Background())
+		c.thrs = append(c.thrs, &sthr{c: c, idx: i, resume: make(chan struct{}), ctx: ctx, cancel: cancel})
+	}
+	cancelled := map[int]bool{}
+	doCancel := func(t *sthr, why string) {
+		if !cancelled[t.idx] {
+			cancelled[t.idx] = true
+			ncancel++
+			c.note(fmt.Sprintf("s%d context cancelled (%s)", t.idx, why))
+			t.cancel()
+		}
+	}
+	start := func(t *sthr) {
+		started := make(chan struct{})
+		go func() {
+			t.gid = verifhook.GoID()
+			sthreads.Store(t.gid, t)
+			defer sthreads.Delete(t.gid)
+			close(started)
+			_, err := h.SummonSwamp(t.ctx, 1, rig.Name(nm))
+			t.log(fmt.Sprintf("SummonSwamp returned (err=%v)", err))
+			t.done.Store(true)
+		}()
+		<-started
+		t.started = true
+		c.squiesce()
+	}
+	var closingObj swamp.Swamp
+	if second || destroying {
+		// the name has been summoned before: the owners find the instance instead of creating it
+		obj, err := h.SummonSwamp(context.Background(), 1, rig.Name(nm))
+		if err != nil {
+			panic(err)
+		}
+		if destroying {
+			// a Destroy of that instance is in flight and cannot finish before the harness ceases
+			// the vigil it holds: the first owner will wait for it in WaitForGracefulClose, the
+			// others queue up behind that owner
+			obj.BeginVigil()
+			closingObj = obj
+			c.destroyHeld.Store(true)
+			go obj.Destroy()
+			for dl := time.Now().Add(2 * time.Second); !obj.IsClosing() && time.Now().Before(dl); {
+				time.Sleep(50 * time.Microsecond)
+			}
+			c.note("Destroy of the current instance started (held back by a vigil of the harness)")
+		}
+	}
+	start(c.thrs[0])
+	for _, t := range c.thrs[1:] {
+		if r.Chance(12) {
+			doCancel(t, "before the call")
+		}
+		start(t)
+	}
+	// pattern of cancellations among the queued requests
+	switch r.Intn(5) {
+	case 0: // the one queued first
+		doCancel(c.thrs[1], "while queued")
+	case 1: // every second one
+		for i := 1; i < n; i += 2 {
+			doCancel(c.thrs[i], "while queued")
+		}
+	case 2: // all but the last
+		for i := 1; i < n-1; i++ {
+			doCancel(c.thrs[i], "while queued")
+		}
+	case 3: // random subset
+		for i := 1; i < n; i++ {
+			if r.Chance(40) {
+				doCancel(c.thrs[i], "while queued")
+			}
+		}
+	default: // none
+	}
+	for round := 0; round < 4*n; round++ {
+		var owner *sthr
+		for _, t := range c.thrs {
+			if !t.done.Load() && t.parked.Load() {
+				owner = t
+			}
+		}
+		if owner == nil && closingObj != nil {
+			// nobody is parked: the owner (if any) waits for the Destroy; let it finish
+			c.note("harness ceases its vigil: the Destroy in flight can finish")
+			c.destroyHeld.Store(false)
+			closingObj.CeaseVigil()
+			closingObj = nil
+			c.squiesce()
+			continue
+		}
+		if owner == nil {
+			if os.Getenv("C17_DEBUG") != "" {
+				st := gstates()
+				for _, t := range c.thrs {
+					fmt.Fprintf(os.Stderr, "DEBUG case %d round %d: s%d done=%v parked=%v state=%q\n", idx, round, t.idx, t.done.Load(), t.parked.Load(), st[t.gid])
+				}
+			}
+			break
+		}
+		if r.Chance(15) {
+			doCancel(owner, "while owning the section")
+		}
+		if r.Chance(25) {
+			for _, t := range c.thrs {
+				if !t.done.Load() && !t.parked.Load() && r.Chance(50) {
+					doCancel(t, "while queued")
+				}
+			}
+		}
+		c.note(fmt.Sprintf("harness releases s%d", owner.idx))
+		owner.parked.Store(false)
+		owner.resume <- struct{}{}
+		c.squiesce()
+	}
+	for _, t := range c.thrs {
+		if !t.done.Load() {
+			hung = append(hung, t.idx)
+		}
+	}
+	if len(hung) > 0 {
+		d := 100 * time.Millisecond
+		if summonHangs.Add(1) <= 3 {
+			d = 2 * time.Second
+		}
+		time.Sleep(d)
+		hung = hung[:0]
+		for _, t := range c.thrs {
+			if !t.done.Load() {
+				hung = append(hung, t.idx)
+			}
+		}
+	}
+	c.mu.Lock()
+	human = append([]string{}, c.human...)
+	c.mu.Unlock()
+	// clean-up: later summons of the name broadcast on the slot; nothing parks any more
+	c.cleanup.Store(true)
+	if closingObj != nil {
+		c.destroyHeld.Store(false)
+		closingObj.CeaseVigil()
+	}
+	for tries := 0; tries < 400; tries++ {
+		all := true
+		for _, t := range c.thrs {
+			if !t.done.Load() {
+				all = false
+				t.cancel()
+				if t.parked.Load() {
+					t.parked.Store(false)
+					t.resume <- struct{}{}
+				}
+			}
+		}
+		if all {
+			break
+		}
+		h.SummonSwamp(context.Background(), 1, rig.Name(nm))
+		time.Sleep(200 * time.Microsecond)
+	}
+	for _, t := range c.thrs {
+		t.cancel()
+	}
+	return
+}
+
 func pollProbe(n int) (hung bool) {
 	so := safeops.New()
 	for i := 0; i < n; i++ {
@@ -536,6 +827,7 @@ func main() {
 	verifhook.Install(controller)
 	thorough := a.Tier == "thorough"
 
+	onlySummon := os.Getenv("C17_ONLY") == "summon"
 	// --- 1. forced schedules
 	type job struct {
 		nw, nops int
@@ -588,6 +880,9 @@ func main() {
 		enumerate(2, 2, 2, 600, "w2o2")
 		enumerate(3, 2, 2, 200, "w3o2")
 	}
+	if onlySummon {
+		jobs = nil
+	}
 	fres := make([]fresult, len(jobs))
 	common.Parallel(len(jobs), 8, func(i int) {
 		if hangsSeen.Load() > 40 {
@@ -623,6 +918,9 @@ func main() {
 
 	// --- 2. stress
 	nrounds := 1500
+	if onlySummon {
+		nrounds = 0
+	}
 	if thorough {
 		nrounds = 20000
 	}
@@ -683,6 +981,28 @@ func main() {
 		run.Hist("destroy")
 		if foreign && waited {
 			run.Hist("destroy_waited_for_foreign_vigil")
+		}
+	}
+	// --- 3b. requests queued in SummonSwamp's per-name slot (cancelled contexts among them)
+	ns := 70
+	if thorough {
+		ns = 700
+	}
+	for i := 0; i < ns; i++ {
+		if summonHangs.Load() > 10 {
+			run.Hist("summon_skipped_after_many_hangs")
+			continue
+		}
+		n, nc, hung, human := summonCase(srv, i, rng.Fork(fmt.Sprintf("summon%d", i)), i%4 == 2, i%4 == 1)
+		run.Add(common.App("KSummon", common.Nat(n), common.Nat(nc), common.Bool(len(hung) > 0)),
+			map[string]interface{}{"kind": "summon-queue", "requests": n, "contexts_cancelled": nc, "observed": human,
+				"requests_still_blocked_in_the_slot_queue": hung}, nc > 0)
+		run.Hist("summon_queue")
+		if i%4 == 1 {
+			run.Hist("summon_queue_behind_destroy_in_flight")
+		}
+		if nc > 0 {
+			run.Hist("summon_queue_with_cancelled_context")
 		}
 	}
 	srv.Stop()
